@@ -178,9 +178,10 @@ if __name__ == "__main__":
     if cmd == "import-ref":
         import_ref(sys.argv[2], sys.argv[3]); sys.exit(0)
     if cmd == "refcheck":
-        ids = sys.argv[2:] or sorted(os.listdir(os.path.join(HERE, "refactors")))
-        for rid in ids:
-            refcheck(rid)
+        ids = [r for r in (sys.argv[2:] or sorted(os.listdir(os.path.join(HERE, "refactors")))) if os.path.isdir(os.path.join(HERE, "refactors", r))]
+        from multiprocessing.pool import ThreadPool
+        with ThreadPool(12) as pool:
+            pool.map(refcheck, ids)
         sys.exit(0)
     if cmd == "import":
         do_import(sys.argv[2], sys.argv[3])
@@ -188,7 +189,7 @@ if __name__ == "__main__":
         for sid in sys.argv[2:]:
             confirm(sid)
     elif cmd == "detect":
-        ids = sys.argv[2:] or sorted(os.listdir(SEEDED))
-        for sid in ids:
-            if os.path.isdir(os.path.join(SEEDED, sid)):
-                detect(sid)
+        ids = [s for s in (sys.argv[2:] or sorted(os.listdir(SEEDED))) if os.path.isdir(os.path.join(SEEDED, s))]
+        from multiprocessing.pool import ThreadPool
+        with ThreadPool(12) as pool:
+            pool.map(detect, ids)
